@@ -333,13 +333,80 @@ def check_c01(args):
     v = Verdict("C01")
     cases, agree = run_sql_suite(seed + 1000, tier, "c01")
     stats = judge_suite(cases, v, "C01")
+    rstats = check_rules(seed, tier, v)
     import sqlknown
     sqlknown.run_repros(v, "C01")
     rc = v.finish()
     evidence_sql("C01", tier, seed, "translation_validation", cases, stats, agree, v, t0, RULE,
-                 ASSUME + ["whole-optimizer validation only: each optimized plan (real and mocked statistics) "
-                           "is compared with the unoptimized plan and with the semantics"])
+                 ASSUME + ["whole-optimizer validation (each optimized plan, real and mocked statistics, is compared "
+                           "with the unoptimized plan and with the semantics) plus per-rule instantiation of the "
+                           "expression rewrite rules read from src/planner/rules/expr.rs; plan-level rules "
+                           "(rules/plan.rs, order.rs, range.rs) are only exercised through the generated queries"],
+                 extra={"per_rule": rstats})
     return rc
+
+
+def check_rules(seed, tier, v):
+    """Per-rule half of C01: instances of every expression rewrite rule in filter, negated-filter and
+    projection position (lib/rulecheck.py), decided by SqlObs.tla."""
+    import rulecheck
+    cases, rules, skipped = rulecheck.rule_cases(seed, tier)
+    runs, labels = to_run_cases(cases, mocks=False)
+    outs = run_sharded("sql", runs, tag="c01-rules", timeout=3000, case_timeout=30)
+    collect(cases, runs, labels, outs)
+    validate(cases, "c01-rules")
+    key = lambda row: json.dumps(row[:3])
+    nullrows = {}        # instance -> input rows (a, b, c) on which the instance is NULL
+    for c in cases:
+        if c["position"] == "projection" and c["q"]["where"] is None:
+            nullrows[c["instance"]] = {key(r) for r in c["expected"] if r[3][0] == "n"}
+    n_obs, by_pos, bad_rules = 0, {}, set()
+    for c in cases:
+        for lab, o in c["obs"].items():
+            eng, conf = lab.split(".")
+            if conf != "on":
+                continue
+            by_pos[c["position"]] = by_pos.get(c["position"], 0) + 1
+            info = {"sql": c["sql"], "db": c["db"], "rule": c["rule"], "position": c["position"],
+                    "instance": c["instance"], "config": lab, "expected": c["expected"]}
+            if "rows" not in o:
+                v.violation(dict(info, error=o), f"[{lab}] instance {c['instance']} of rule {c['rule']} "
+                            f"({c['position']}) fails under the optimizer: {str(o.get('err'))[:150]}")
+                continue
+            n_obs += 1
+            if c["match"][lab]:
+                continue
+            off = c["obs"].get(f"{eng}.off", {})
+            off_ok = "rows" in off and c["match"].get(f"{eng}.off")
+            # F28: a contradiction is folded to false although it is NULL for a NULL operand; invisible in a
+            # filter, visible in a projection (NULL -> false) and under NOT (rows with a NULL instance appear)
+            known = False
+            if off_ok and v.is_known("F28"):
+                exp, got = c["expected"], o["rows"]
+                if c["position"] == "projection" and len(exp) == len(got):
+                    e2, g2 = sorted(exp, key=json.dumps), sorted(got, key=json.dumps)
+                    em = {key(r): r[3] for r in exp}
+                    known = all(key(r) in em and (r[3] == em[key(r)] or (em[key(r)][0] == "n" and r[3] == ["b", 0]))
+                                for r in got)
+                elif c["position"] == "negated filter":
+                    ek = sorted(key(r) for r in exp)
+                    gk = sorted(key(r) for r in got)
+                    extra = list(gk)
+                    for k in ek:
+                        if k in extra:
+                            extra.remove(k)
+                    known = len(extra) == len(gk) - len(ek) and all(k in nullrows.get(c["instance"], ()) for k in extra)
+            if known:
+                v.note_known("F28")
+                bad_rules.add(c["rule"])
+                continue
+            v.violation(dict(info, observed=o["rows"], unoptimized_matches_spec=bool(off_ok)),
+                        f"[{lab}] rule {c['rule']}: instance {c['instance']} in {c['position']} position returns "
+                        f"{o['rows'][:5]}, the semantics give {c['expected'][:5]}")
+    return {"rules_in_source": len(rules), "rules_instantiated": len(rules) - len(skipped),
+            "rules_not_instantiated": skipped, "instances": len({c["instance"] for c in cases}),
+            "queries": len(cases), "observations": n_obs, "by_position": by_pos,
+            "rules_meeting_F28": sorted(bad_rules)}
 
 
 # =========================================================================== C12 / C13 / C05
